@@ -140,6 +140,8 @@ pub struct TypeEntry {
     pub export_all_to: fn(&Path) -> Result<(), String>,
     pub export_to_string: fn() -> Result<String, String>,
     pub serde: Option<SerdeFns>,
+    /// TypeScript names of the type arguments of a generic instantiation (set by the generator)
+    pub arg_names: Vec<fn() -> String>,
 }
 
 fn deps_of<T: TS + 'static + ?Sized>() -> Vec<DepInfo> {
@@ -185,7 +187,13 @@ impl TypeEntry {
             export_all_to: |p| T::export_all_to(p).map_err(err_s),
             export_to_string: || T::export_to_string().map_err(err_s),
             serde: None,
+            arg_names: vec![],
         }
+    }
+
+    pub fn args(mut self, names: Vec<fn() -> String>) -> Self {
+        self.arg_names = names;
+        self
     }
 
     pub fn ser<T: TS + 'static + serde::Serialize + Samples>(id: &str, rust: &str) -> Self {
